@@ -199,13 +199,13 @@ class C04(Monitor):
                 moved = v.distance_traveled_km > p.distance_traveled_km
                 if moved:
                     ctx.count("c04_moves")
-                    if not v.energy_expended[et] > p.energy_expended[et]:
+                    if p.energy[et] > 1e-9 * cap and not v.energy_expended[et] > p.energy_expended[et]:
                         ctx.violate("C04", f"drove-for-free-{type(mech).__name__.lower()}", f"{v.id} drove {v.distance_traveled_km - p.distance_traveled_km} km without expending energy", vehicle=v.id)
                 # idling in Idle / queueing with energy in the tank costs something
                 idled = (aname(p) == "Idle" and aname(v) == "Idle" and v.vehicle_state.instance_id == p.vehicle_state.instance_id and v.vehicle_state.idle_duration > p.vehicle_state.idle_duration) or (
                     aname(p) == "ChargeQueueing" and aname(v) == "ChargeQueueing" and v.vehicle_state.instance_id == p.vehicle_state.instance_id and _can_use(env, s, mech, v.vehicle_state)
                 )
-                if idled and p.energy[et] > 0 and _idle_rate(mech) > 0:
+                if idled and p.energy[et] > 1e-9 * cap and _idle_rate(mech) > 0:  # a residue below float resolution of the totals cannot show
                     ctx.count("c04_idle_steps")
                     if not v.energy_expended[et] > p.energy_expended[et]:
                         ctx.violate("C04", f"idled-for-free-{type(mech).__name__.lower()}", f"{v.id} idled {dt}s in {aname(v)} without expending energy", vehicle=v.id)
@@ -293,7 +293,7 @@ def check_consume(violate, count, ev):
         violate("C04", "consume-negative-level", f"consume_energy left level {v1.energy[et]}", mech=kind)
     if abs((v1.energy_expended[et] - v0.energy_expended[et]) - d) > 1e-9 * max(1.0, abs(d)):
         violate("C04", f"consume-books-wrong-amount-{kind}", f"consume_energy removed {d} but booked {v1.energy_expended[et] - v0.energy_expended[et]}", mech=kind)
-    if dist > 0 and v0.energy[et] > 0 and not d > 0:
+    if dist > 0 and v0.energy[et] > 1e-9 * capacity_of(mech) and not d > 0:
         violate("C04", f"consume-free-{kind}", f"driving {dist} km removed {d}", mech=kind)
     if v1.energy_gained[et] != v0.energy_gained[et]:
         violate("C04", "consume-touched-gained", "consume_energy changed energy_gained", mech=kind)
@@ -309,7 +309,7 @@ def check_idle(violate, count, ev):
         violate("C04", "idle-negative-level", f"idle left level {v1.energy[et]}", mech=kind)
     if abs((v1.energy_expended[et] - v0.energy_expended[et]) - d) > 1e-9 * max(1.0, abs(d)):
         violate("C04", f"idle-books-wrong-amount-{kind}", f"idle removed {d} but booked {v1.energy_expended[et] - v0.energy_expended[et]}", mech=kind)
-    if dt > 0 and v0.energy[et] > 0 and _idle_rate(mech) > 0 and not d > 0:
+    if dt > 0 and v0.energy[et] > 1e-9 * capacity_of(mech) and _idle_rate(mech) > 0 and not d > 0:
         violate("C04", f"idle-free-{kind}", f"idling {dt}s removed {d}", mech=kind)
 
 
